@@ -375,6 +375,9 @@ def run_scenario(c, mod, sc: Scenario, clauses, param="data"):
         env["elems"] = lambda x, rec=rec, data=data: rec if x is data else _elems_of(x)
         env["same_items"] = lambda a, b, rec=rec, data=data: type(a) is tuple and list(a) == (rec if b is data else _elems_of(b))
     env.update(c.consts)
+    if is_oneshot:
+        # native predicates get a fresh twin of a one-shot iterator (the call consumed the original)
+        env["py"] = lambda f, *a, data=data, fac=sc.data_factory: f(*[fac() if x is data else x for x in a])
     for gname in c.ghosts:
         if gname in sc.stubs:
             env[gname] = sc.stubs[gname]
